@@ -2,14 +2,14 @@
 from vlib.tok import f64, s as S, lst
 from checks.storegen import World, PLAIN, NAMES
 ID = 'C12'
-THEOREMS = ['Nix.St.setLinks_idsKept', 
+THEOREMS = ['Nix.Guards.create_guards_are_in_place', 'Nix.Guards.type_checked_with_the_name', 'Nix.Guards.modelled_creates_are_tabulated', 'Nix.St.setLinks_idsKept', 
     'Nix.C12.uuidChars_wellformed', 'Nix.C12.uuidText_wellformed', 'Nix.C12.byte_inj', 'Nix.C12.uuidChars_injective', 'Nix.C12.uuidText_injective', 'Nix.C12.uuidText_eq_iff',
     'Nix.C12.step_inv', 'Nix.C12.ids_distinct_invariant', 'Nix.C12.id_immutable', 'Nix.C12.id_immutable_history',
     'Nix.C12.same_seed_same_ids', 'Nix.C12.time_seeded_not_fresh',
     # the store-model part: no entry point re-identifies anything, and the ids in the file stay pairwise distinct
     'Nix.St.entity_id_immutable', 'Nix.St.history_ids_kept', 'Nix.St.apply_idStep', 'Nix.St.apply_idUniq', 'Nix.St.run_idUniq', 'Nix.St.ids_pairwise_distinct',
 ]
-LEAN_MODULES = ['NixModel.Props.C08Bulk', 'NixModel.Props.C12', 'NixModel.Props.C12Ids', 'NixModel.Proofs.IdUniq', 'NixModel.Props.C03Ids']
+LEAN_MODULES = ['NixModel.Props.C08Guards', 'NixModel.Gen.CreateGuards', 'NixModel.Props.C08Bulk', 'NixModel.Props.C12', 'NixModel.Props.C12Ids', 'NixModel.Proofs.IdUniq', 'NixModel.Props.C03Ids']
 FLAVOUR = {'quick': 'plain', 'thorough': 'asan'}
 RULE = ('(1) batches of ids straight from util::createId(): format (8-4-4-4-12 lower-case hex, version nibble 4, variant 10xx), membership in the image of the '
         'model\'s uuidText, pairwise distinctness over the case.  (2) random entity-tree histories of the store grammar with a snapshot of every entity\'s '
